@@ -101,7 +101,8 @@ RULE = ("random fermionic programs (length <= 5) over arrays whose pending-sign 
         "transpose / phase_flip / phase_transpose / phase_global / conj; each program is run on the real code as "
         "is and with phase_sync() applied to every operand and after every step; all step results and terminal "
         "observations (to_dense, sum, norm, abs, max, min, trace, singular values, eigh reconstruction) must agree, "
-        "and agree with the Lean model. non-trivial: the pending table is non-empty at some observed operation")
+        "and agree with the Lean model. non-trivial: the pending table is non-empty at some observed operation"
+        '; solve(A, b) with pending signs on b and A vs their synchronised copies')
 ANCHORS = {"fermionic_core.py": ["phase_sync", "phase_flip", "phase_transpose", "phase_global", "transpose", "conj",
                                  "to_dense", "_binary_blockwise_op", "trace", "__matmul__", "fuse", "unfuse",
                                  "_do_reduction", "_do_unary_op"],
